@@ -8,6 +8,7 @@ import (
 	"log/slog"
 	"net/http"
 	"os"
+	"path/filepath"
 	"strings"
 	"sync"
 	"time"
@@ -36,9 +37,10 @@ func RoutingContext(r *http.Request) *routingContext {
 }
 
 type Router struct {
-	statePath   string
-	services    *ServiceMap
-	serviceLock sync.RWMutex
+	statePath    string
+	services     *ServiceMap
+	serviceLock  sync.RWMutex
+	snapshotLock sync.Mutex
 }
 
 type ServiceDescription struct {
@@ -320,6 +322,13 @@ func (r *Router) findOrCreateService(name string, options ServiceOptions, target
 }
 
 func (r *Router) saveStateSnapshot() error {
+	// Snapshots are written one at a time, each to a temporary file that is
+	// renamed over the state file once complete: a crash can never leave an
+	// empty or partial state file behind, and overlapping commands cannot
+	// interleave their writes or let an older snapshot win.
+	r.snapshotLock.Lock()
+	defer r.snapshotLock.Unlock()
+
 	services := []*Service{}
 	r.withReadLock(func() error {
 		for _, service := range r.services.All() {
@@ -328,12 +337,19 @@ func (r *Router) saveStateSnapshot() error {
 		return nil
 	})
 
-	f, err := os.Create(r.statePath)
+	f, err := os.CreateTemp(filepath.Dir(r.statePath), filepath.Base(r.statePath)+".*.tmp")
 	if err != nil {
 		return err
 	}
+	defer os.Remove(f.Name())
 
 	err = json.NewEncoder(f).Encode(services)
+	if closeErr := f.Close(); err == nil {
+		err = closeErr
+	}
+	if err == nil {
+		err = os.Rename(f.Name(), r.statePath)
+	}
 	if err != nil {
 		slog.Error("Unable to save state", "error", err, "path", r.statePath)
 		return err
